@@ -474,6 +474,26 @@ func runE2EWith(c *core.Ctx, asan bool) {
 		// the very first title line is longer than what format sniffers usually look at
 		fc.recs[0].Def = gen.LongDef(c.Rng, []int{3000, 3100, 4096, 9000, 70000}[c.Rng.Intn(5)], c.Rng.Intn(2) == 0)
 	}
+	fc.text = gen.Render(c.Rng, fc.recs, fc.style)
+	if fc.style.CRLF && (format == "fasta" || format == "fastq") && !strings.HasPrefix(fc.recs[0].Def, "{") && len(fc.recs) > 2 {
+		// line ends of two bytes straddling a 4 KiB boundary of the stream (the C reader of the
+		// stdin path fills a 4096-byte buffer): the first title line is padded so that the "\r" of
+		// a sequence line of a later record is the last byte of a 4 KiB block
+		firstEOL := bytes.Index(fc.text, []byte("\r\n"))
+		from := firstEOL + 2 + len(fc.text)/3
+		if q := bytes.Index(fc.text[min(from, len(fc.text)):], []byte("\r\n")); firstEOL > 0 && q >= 0 {
+			p := min(from, len(fc.text)) + q
+			pad := (4095 - (p+1)%4096 + 4096) % 4096
+			if pad > 0 {
+				word := strings.Repeat("x", pad)
+				if fc.recs[0].Def == "" {
+					fc.recs[0].Def = word[:max(0, pad-1)]
+				} else {
+					fc.recs[0].Def += " " + word[:max(0, pad-1)]
+				}
+			}
+		}
+	}
 	// a UTF-8 byte order mark in front of the text: skipped by the code that opens files by name
 	// (plain or compressed); not used with stdin, where nothing is promised
 	fc.style.BOM = c.Idx%5 == 2
